@@ -380,10 +380,24 @@ func TestVerifC18Race(t *testing.T) {
 			case <-stop:
 				return
 			case <-tick.C:
-				if time.Since(time.Unix(0, s.last.Load())) > 20*time.Second {
+				if idle := time.Since(time.Unix(0, s.last.Load())); idle > 20*time.Second {
 					buf := make([]byte, 4<<20)
 					n := runtime.Stack(buf, true)
-					fmt.Printf("C18-HANG no operation finished for 20s\n%s\n", buf[:n])
+					// A deadlock leaves every goroutine BLOCKED (mutex, channel, wait group, select, I/O). A process that is
+					// merely starved (an overloaded machine under the race detector: the holder of a lock sits in "GC assist
+					// wait" or is runnable for many seconds) is not hung: it gets two minutes before that counts as one.
+					busy := 0
+					for _, g := range strings.Split(string(buf[:n]), "\n\n") {
+						head, _, _ := strings.Cut(g, "\n")
+						if strings.Contains(head, "[GC assist wait") || strings.Contains(head, "[runnable") ||
+							(strings.Contains(head, "[running") && !strings.Contains(g, "runtime.Stack")) {
+							busy++
+						}
+					}
+					if busy > 0 && idle < 120*time.Second {
+						continue
+					}
+					fmt.Printf("C18-HANG no operation finished for %ds\n%s\n", int(idle/time.Second), buf[:n])
 					os.Exit(3)
 				}
 			}
